@@ -270,6 +270,18 @@ Lemma account_from_tlb_anycast d p wc addr :
   account_from_tlb (MAStd (Some (d, p)) wc addr) = Ok (Some (wc, anycast_rewrite d p addr)).
 Proof. reflexivity. Qed.
 
+Lemma anycast_rewrite_full d p wc addr :
+  1 <= d <= 32 -> p < 2 ^ d -> length addr = 32%nat -> bytes_ok addr ->
+  exists addr',
+    account_from_tlb (MAStd (Some (d, p)) wc addr) = Ok (Some (wc, addr')) /\
+    length addr' = 32%nat /\
+    bytes_bits addr' = bits_of (N.to_nat d) p ++ skipn (N.to_nat d) (bytes_bits addr).
+Proof.
+  intros Hd Hp HL Hb. exists (anycast_rewrite d p addr).
+  split; [exact (account_from_tlb_anycast d p wc addr)|].
+  split; [exact (anycast_rewrite_length d p addr HL)|exact (anycast_rewrite_spec d p addr Hd Hp HL Hb)].
+Qed.
+
 (** ** JSON *)
 Definition plain (c : N) : Prop := 32 <= c /\ c <> 34 /\ c <> 92.
 
